@@ -73,9 +73,10 @@ var reHexNoExp = regexp.MustCompile(`^[+-]?0[xX][0-9a-fA-F.]+$`)
 
 func looksNumeric(s string) bool { return reNumeric.MatchString(asciiTrim(s)) }
 
-// lenient: numeric after trimming Unicode blanks too (texts in the gap between the two are
-// only subject to the coherence equations, not to a forced comparison mode)
-func maybeNumeric(s string) bool { return reNumeric.MatchString(strings.TrimSpace(s)) }
+// maybeNumeric: since the repair of F-C05-1 (parseFloat trims ASCII blanks only) there is no gap
+// any more between "numeric after trimming Unicode blanks" and "numeric after trimming ASCII
+// blanks": text with a non-ASCII blank at an edge must be treated as a string everywhere.
+func maybeNumeric(s string) bool { return looksNumeric(s) }
 
 // the double a numeric-looking text denotes, by strconv (correctly rounded)
 func numericValue(s string) float64 {
